@@ -58,7 +58,8 @@ def handleC05 (kind : String) (fs : List (String × String)) : String :=
 open Swim.Lifecycle in
 def parseStage : String → Option Stage
   | "joined" => some .joined | "left" => some .left | "leftReaped" => some .leftReaped
-  | "shutdown" => some .shutdown | "leftShutdown" => some .leftShutdown | _ => none
+  | "shutdown" => some .shutdown | "leftShutdown" => some .leftShutdown
+  | "denied" => some .denied | "deniedShutdown" => some .deniedShutdown | _ => none
 
 open Swim.Lifecycle in
 def parseCall : String → Option Call
@@ -72,9 +73,11 @@ def tableMismatch (tb : String) : Option String := Id.run do
   if tb == "-" then return none
   for e in tb.splitOn "," do
     match e.splitOn ":" with
-    | [st, cr] =>
+    | st :: crs@(_ :: _) =>
+      let cr := String.intercalate ":" crs   -- a panic text carries colons of its own
       match cr.splitOn "=" with
-      | [c, res] =>
+      | c :: ress@(_ :: _) =>
+        let res := String.intercalate "=" ress
         match parseStage st, parseCall c with
         | some s, some cl =>
           let isErr := res == "err"
@@ -83,6 +86,7 @@ def tableMismatch (tb : String) : Option String := Id.run do
           | .ok => if isErr || bad then return some s!"{st}:{c}={res}:model=ok"
           | .error => if !isErr then return some s!"{st}:{c}={res}:model=error"
           | .okOrError => if bad then return some s!"{st}:{c}={res}:model=ok-or-error"
+          | .PANIC => if !res.startsWith "PANIC" then return some s!"{st}:{c}={res}:model=panics(known-finding)"
           | _ => pure ()
         | _, _ => return some s!"unparsed:{e}"
       | _ => return some s!"unparsed:{e}"
@@ -96,7 +100,14 @@ def handleC20 (kind : String) (fs : List (String × String)) : String :=
   | "api" => if (get fs "err").isSome then "PARSE create" else
       let bad := getD fs "bad" "-"
       let mm := tableMismatch (getD fs "table" "-")
-      verdict (bad == "-" && mm.isNone) (if bad == "-" then none else some bad) ((getNat fs "calls").getD 0 ≥ 10)
+      -- a panic the stage table predicts (`self<stage>:<Call>:PANIC…`, outcome = PANIC) is agreement with
+      -- the model; it is still reported as BAD (and answered by the known-findings list)
+      let predicted (e : String) : Bool := match e.splitOn ":" with
+        | st :: c :: r :: _ => r == "PANIC" && (match parseStage (st.drop 4).toString, parseCall c with
+            | some s, some cl => Swim.Lifecycle.outcome s cl == .PANIC
+            | _, _ => false)
+        | _ => false
+      verdict ((bad == "-" || (bad.splitOn ",").all predicted) && mm.isNone) (if bad == "-" then none else some bad) ((getNat fs "calls").getD 0 ≥ 10)
         s!"api-{getD fs "stages" "?"}" (match mm with | some m => s!"stage-table:{m}" | none => "")
   | _ => "PARSE kind"
 
